@@ -47,6 +47,7 @@ PROPS = {
         'units': ['core_kernel', 'parser'],
         'kani': ['kani/swar.py'],
         'kani_bounded': ['kani/prims.py'],
+        'technique': 'contract-based deductive verification (Verus) of the macro-expanded real code, contracts woven mechanically; the two SWAR bit tricks by loop-free full-domain Kani/CBMC harnesses (kani/swar.py); the two raw-memory primitives additionally by a bounded Kani run (kani/prims.py, labelled bounded)',
         'title': 'Parsing accepts exactly the literal grammar and never yields a wrong value',
         'design_ref': 'DESIGN.md section 7 (C06)',
         'assumptions': [
@@ -162,6 +163,7 @@ PROPS = {
     'C12': {
         'units': ['core_kernel', 'into_float'],
         'kani': ['kani/cast.py'],
+        'technique': 'contract-based deductive verification (Verus) of the macro-expanded real code, contracts woven mechanically; the branch through the primitive int->float cast, which Verus cannot read, by loop-free full-domain Kani/CBMC harnesses on the real From impls (kani/cast.py)',
         'title': 'Decimal to f64/f32 conversion is correctly rounded',
         'design_ref': 'DESIGN.md section 7 (C12)',
         'assumptions': [
